@@ -19,6 +19,7 @@ ID = "C04"
 TECHNIQUE = "runtime monitoring: compiled likelihood kernels observed on generated inputs; independent mixture-model oracle + metamorphic relations"
 LEVEL_TEXT = "Exploration: every observed return value of the real compiled likelihood kernels (assemble, calling, pedigree, cached and uncached, structural) on thousands of generated read tensors (NaN gaps, zero-probability non-alleles, weighted reads, duplicated haplotypes, all interval shapes) equals an independent implementation of the documented mixture likelihood and satisfies the stated symmetries. It says nothing outside the generated classes (ploidy 1-8, <=8 sites, <=12 reads)."
 LEVEL_TEXT += ' Session 3: long loci (25-120 SNVs) with reads whose probability under the genotype is 1e-60..1e-280 (representable, while products of two are not); every symmetry, count, structural, cached and allele-indexed monitor runs on them.'
+LEVEL_TEXT += ' Session 4: one cache over streams of pooled ploidies 8-12 with 70-500 candidate haplotypes (ploidy x bits per allele beyond 64).'
 LEVEL_NOTE = "Trusts the oracle in vlib/oracles/model.py, numpy, and that numba executes the cached code compiled from the hashed tree."
 LEVEL = "exploration"
 RULE = (
